@@ -5,7 +5,7 @@
    aiohomekit/model/characteristics/characteristic.py and Service.build_update
    by the correspondence check harness/c14.py. *)
 From Coq Require Import List NArith ZArith Bool QArith Qabs.
-From AHK Require Import Lib.Res Model.Convert Model.ConvertHist Proofs.ConvertInt Proofs.ConvertQ Proofs.ConvertFrac Proofs.ConvertHist.
+From AHK Require Import Lib.Res Model.Convert Model.ConvertHist Proofs.ConvertInt Proofs.ConvertQ Proofs.ConvertFrac Proofs.ConvertRange Proofs.ConvertHist.
 Import ListNotations.
 Local Open Scope Z_scope.
 
@@ -192,6 +192,63 @@ Proof.
 Qed.
 
 (* ---------------------------------------------------------------------- *)
+(* Range membership on the six-digit path.                                  *)
+(* ---------------------------------------------------------------------- *)
+
+(* a number with at most six significant digits is a barrier for the rounding
+   to six digits: a value on one side of it is never rounded across it *)
+Theorem six_digit_numbers_are_barriers : forall d B, rep6 B ->
+  (dval d <= B -> dval (dfix ctx6 d) <= B) /\ (B <= dval d -> B <= dval (dfix ctx6 d)).
+Proof. exact barrier_lemma. Qed.
+
+(* float format, positive step, min <= max, max on the grid (max - min = K * step):
+   when min, max, max - min and K have at most six significant digits the
+   result lies in [min, max] - for every finite input of any size *)
+Theorem frac_in_range_when_bounds_on_grid : forall m M s str v K,
+  dcoef s <> 0%N -> dneg s = false -> dval m <= dval M ->
+  rep6 (dval m) -> rep6 (dval M) -> rep6 (dval M - dval m) ->
+  (0 <= K < 10 ^ 6)%Z -> dval M - dval m == inject_Z K * dval s ->
+  exists res, check_convert FFloat (Some m) (Some M) (Some s) str (RFin v) = Ok (VDec res) /\
+              dval m <= dval res <= dval M.
+Proof. exact float_in_range_lemma. Qed.
+
+(* the same for an integer format whose value or step is fractional (integer bounds zm, zM) *)
+Theorem int_fractional_in_range : forall f m M s str v K zm zM,
+  is_integer_fmt f = true -> dcoef s <> 0%N -> dneg s = false -> dval m <= dval M ->
+  is_integral HalfUp (clamp (Some m) (Some M) v) && is_integral HalfUp m && is_integral HalfUp s = false ->
+  dval m == inject_Z zm -> dval M == inject_Z zM ->
+  rep6 (dval m) -> rep6 (dval M) -> rep6 (dval M - dval m) ->
+  (0 <= K < 10 ^ 6)%Z -> dval M - dval m == inject_Z K * dval s ->
+  exists z, check_convert f (Some m) (Some M) (Some s) str (RFin v) = Ok (VInt z) /\ (zm <= z <= zM)%Z.
+Proof. exact int_dec_path_in_range_lemma. Qed.
+
+(* non-vacuity (thermostat 10..38 step 0.5, K = 56, a 50-digit float input above
+   the range), and the hypothesis cannot be dropped: with the seven-digit
+   maximum 999999.5 (on the grid of step 0.5 from 0) the value 999999.5 is
+   prepared as 1000000 - above the maximum (the real code does the same) *)
+Example c14_range_nonvacuous :
+  let mk := fun c e => mkDec false c e in
+  let m := mk 10%N 0%Z in let M := mk 38%N 0%Z in let s := mk 5%N (-1)%Z in
+  (dval m <= dval M /\ rep6 (dval m) /\ rep6 (dval M) /\ rep6 (dval M - dval m) /\
+   dval M - dval m == inject_Z 56 * dval s) /\
+  check_convert FFloat (Some m) (Some M) (Some s) []
+    (RFin (mk 3799999999999999715782905696310102939605712890625%N (-47)%Z)) = Ok (VDec (mk 380%N (-1)%Z)) /\
+  check_convert FFloat (Some (mk 0%N 0%Z)) (Some (mk 9999995%N (-1)%Z)) (Some s) [] (RFin (mk 9999995%N (-1)%Z))
+    = Ok (VDec (mk 100000%N 1%Z)) /\
+  ~ dval (mk 100000%N 1%Z) <= dval (mk 9999995%N (-1)%Z).
+Proof.
+  cbv zeta. split; [|split; [|split]].
+  - split; [vm_compute; discriminate|]. split; [|split; [|split]].
+    + exists 10%Z, 0%Z. split; [reflexivity|]. vm_compute. reflexivity.
+    + exists 38%Z, 0%Z. split; [reflexivity|]. vm_compute. reflexivity.
+    + exists 28%Z, 0%Z. split; [reflexivity|]. vm_compute. reflexivity.
+    + vm_compute. reflexivity.
+  - vm_compute. reflexivity.
+  - vm_compute. reflexivity.
+  - vm_compute. intro H. apply H. reflexivity.
+Qed.
+
+(* ---------------------------------------------------------------------- *)
 (* Histories (Model/ConvertHist.v): one Service with long-lived             *)
 (* Characteristic objects; Declare = metadata re-assigned, Report = the     *)
 (* accessory reports a value (set_value), Prepare = Service.build_update    *)
@@ -277,3 +334,6 @@ Print Assumptions prepare_leaves_no_trace.
 Print Assumptions payload_entrywise.
 Print Assumptions payload_total.
 Print Assumptions payload_one_bad_entry_rejects.
+Print Assumptions six_digit_numbers_are_barriers.
+Print Assumptions frac_in_range_when_bounds_on_grid.
+Print Assumptions int_fractional_in_range.
